@@ -203,6 +203,11 @@ def segLoop (p : Params) : Nat → Nat → List Item → Int → Nat → M (List
 def upReq (p : Params) : List UInt8 :=
   sdoHdr (coe_SDOREQ <<< 12) (if p.sub.isNone then od_UP_REQ_CA else od_UP_REQ) p.index (subOr1 p) ++ zeros 4
 
+/-- `ret = [data[10:]]; retsize = len(ret[0]); toggle = 0` and into the `while`; the fuel is one more than
+the mails that are left, each round consumes one -/
+def segStart (p : Params) (size : Nat) (first : List UInt8) : M (List UInt8) :=
+  fun s => segLoop p (s.mails.length + 1) size [.bytes first] first.length 0 s
+
 /-- what `sdo_read` does with the first CoE mail -/
 def readCont (p : Params) (data : List UInt8) : M (List UInt8) :=
   if data.length < 10 then fail .structError                    -- unpack("<HBHBI", data[:10])
@@ -216,9 +221,7 @@ def readCont (p : Params) (data : List UInt8) : M (List UInt8) :=
       else fail .ethercat
     else if idx ≠ p.index then fail .ethercat
     else if sdocmd &&& 2 ≠ 0 then pure (slice data 6 (10 - ((sdocmd >>> 2) &&& 3)))
-    else
-      let first := data.drop 10
-      fun s => segLoop p (s.mails.length + 1) size [.bytes first] first.length 0 s
+    else segStart p size (data.drop 10)
 
 def sdoRead (p : Params) : M (List UInt8) := do
   mbxSend (upReq p)
@@ -267,6 +270,11 @@ def initDownReq (p : Params) (v : List UInt8) : List UInt8 :=
   sdoHdr (coe_SDOREQ <<< 12) (if p.sub.isNone then od_DOWN_INIT_CA else od_DOWN_INIT) p.index (subOr1 p)
     ++ zeros 4 ++ v.take (min v.length (p.outSz - 16))
 
+/-- `toggle = 0` and into the `while stop < len(data)`; fuel: every round either consumes a mail or moves
+`stop` forward inside a response of at most `inSz` bytes -/
+def downStart (p : Params) (stop : Nat) (data : List UInt8) : M (List UInt8) :=
+  fun s => downLoop p ((s.mails.length + 1) * (p.inSz + 2)) stop data 0 s
+
 def sdoWrite (p : Params) (v : List UInt8) : M (List UInt8) :=
   if v.length ≤ 4 ∧ p.sub.isSome then do
     mbxSend (expReq p v)
@@ -281,7 +289,7 @@ def sdoWrite (p : Params) (v : List UInt8) : M (List UInt8) :=
     mbxSend (initDownReq p v)
     let (typ, data) ← mbxRecv
     checkDown p typ data
-    fun s => downLoop p ((s.mails.length + 1) * (p.inSz + 2)) stop data 0 s
+    downStart p stop data
 
 /-! ### entry points -/
 
